@@ -96,4 +96,41 @@ func HarnessC14() {
 	} else {
 		verifAssert(e5 == nil && string(w5.data) == full, "ExecuteWriter with a healthy writer")
 	}
+	// the unbuffered variant on a failing writer: whatever it reports, it returns (no panic) and what
+	// the writer accepted is a leading part of the output
+	w6 := &c14Writer{failAt: W}
+	tpl.ExecuteWriterUnbuffered(ctx, w6)
+	verifAssert(c14IsPrefix(string(w6.data), full), "bytes accepted from ExecuteWriterUnbuffered must be a leading part of the output")
+}
+
+// the four variants over the generated programs of C04 (every registered tag, block tags rendering
+// into buffers of their own) placed after markup: same bytes, same failures
+func HarnessC14Programs() {
+	progs := c04Programs()
+	prog := progs[verifChoice(len(progs))]
+	verifObserve("prog", prog)
+	d := c04SymData(verifParam("len", 2), prog)
+	set, _ := c04Setup(false, false)
+	var tpl *Template
+	var err error
+	if prog == "\x00extends" {
+		tpl, err = c04Compile(set, prog)
+	} else {
+		tpl, err = set.FromString("<ul> <li>\n</li> </ul>\n" + prog + "<p> <b>{{ s }}</b> </p>|")
+	}
+	verifAssert(err == nil, "program must compile")
+	s1, e1 := tpl.Execute(d.ctx())
+	b2, e2 := tpl.ExecuteBytes(d.ctx())
+	w3 := &c14Writer{}
+	e3 := tpl.ExecuteWriter(d.ctx(), w3)
+	w4 := &c14Writer{}
+	e4 := tpl.ExecuteWriterUnbuffered(d.ctx(), w4)
+	verifObserve("out", s1)
+	verifAssert((e1 != nil) == (e2 != nil) && (e1 != nil) == (e3 != nil) && (e1 != nil) == (e4 != nil), "the four variants must fail in the same cases")
+	if e1 == nil {
+		verifAssert(string(b2) == s1 && string(w3.data) == s1, "Execute, ExecuteBytes and ExecuteWriter must produce the same bytes")
+		verifAssert(string(w4.data) == s1, "ExecuteWriterUnbuffered must produce the same bytes as the buffered variants")
+	} else {
+		verifAssert(w3.calls == 0 && s1 == "" && b2 == nil, "a failed execution must not hand out partial output (buffered variants)")
+	}
 }
